@@ -1,4 +1,187 @@
+import VyxalModel.Lemmas.Balance
 import VyxalModel.Model.Transpile
+import VyxalModel.Gen.Elements
+import VyxalModel.Gen.Modifiers
+import VyxalModel.Gen.CtxSites
+/-!
+# C12 — interpreter context is balanced after every construct
+
+* `balanced_sound`: code the delta typing accepts leaves the four depths (context values, input
+  scopes, registered stacks, function stack) exactly where they were on **every** normally finishing
+  execution — any conditions, any iteration counts, any nesting, early exits included;
+* `function_body_balanced`: the same for a function body and each of its `return`s;
+* `element_templates_balanced`, `modifier_templates_balanced`, `helper_functions_balanced`: every
+  template of the regenerated tables and every helper of the repository that touches the lists is
+  accepted (kernel evaluation);
+* the schematic lemmas `for_template_balanced` … show that each structure template of
+  `transpile.py` (as modelled in `Model/Transpile.lean`, tied to the real text by the AST stream) is
+  accepted around any accepted body, with `X` / `x` templates accepted at the depth where the
+  templates place them.
+
+Calls are treated as neutral: that is exactly the statement that callee bodies are balanced, which is
+checked for program-defined functions by the `defn` case and for helpers by the table theorem.
+-/
 namespace C12
-theorem placeholder : True := trivial
+open Bal Vy PyAst
+
+/-- **soundness, top level** -/
+theorem balanced_sound (prog : List PyStmt) (h : balancedTop prog = true) (c c' : D4)
+    (hx : ExecL (skelL prog) c c' .normal) : c' = c := by
+  have hc : chkL none none D4.zero (skelL prog) = some (some D4.zero) := by
+    simpa [balancedTop] using h
+  obtain ⟨d, hd, hr⟩ := soundL hx none none D4.zero (some D4.zero) hc
+  have : d = D4.zero := by simpa using hd.symm
+  subst this
+  exact Rel_zero hr
+
+/-- **soundness, function bodies**: falling off the end or returning, the depths are those at entry -/
+theorem function_body_balanced (body : List PyStmt) (h : balancedFn body = true) (c c' : D4) (x : Exit)
+    (hx : x = .normal ∨ x = .ret) (he : ExecL (skelL body) c c' x) : c' = c := by
+  unfold balancedFn at h
+  cases hc : chkL none (some D4.zero) D4.zero (skelL body) with
+  | none => simp [hc] at h
+  | some r =>
+    have p := soundL he none (some D4.zero) D4.zero r hc
+    rcases hx with rfl | rfl
+    · obtain ⟨d, hd, hr⟩ := p
+      subst hd
+      simp only [hc] at h
+      have : d = D4.zero := by simpa using h
+      subst this; exact Rel_zero hr
+    · obtain ⟨f, hf, hr⟩ := p
+      have : f = D4.zero := by simpa using hf.symm
+      subst this; exact Rel_zero hr
+
+/-! ## tables -/
+
+def entryBalanced (e : Gen.Entry) : Bool :=
+  match e.body with
+  | some b => balancedTop b
+  | none => false
+
+theorem element_templates_balanced : Gen.elements.all entryBalanced = true := by decide +kernel
+
+theorem modifier_templates_balanced : Gen.modifiers.all entryBalanced = true := by decide +kernel
+
+/-- `main.execute_vyxal` is the set-up of the initial state (it registers the program's stack), not part of
+    any program's execution; every other function that touches the lists is balanced -/
+theorem helper_functions_balanced :
+    (Gen.ctxSites.filter (fun f => f.1 != "main.execute_vyxal")).all (fun f => balancedFn f.2) = true := by
+  decide +kernel
+
+example : (Gen.ctxSites.map (·.1)).contains "LazyList.LazyList.output" = true := by decide +kernel
+
+/-! ## the structure templates -/
+
+theorem skelL_append (a b : List PyStmt) : skelL (a ++ b) = skelL a ++ skelL b := by
+  induction a with
+  | nil => rfl
+  | cons s r ih => simp [skelL, ih]
+
+theorem chkL_append (lb fb : Option D4) (cur : D4) (a b : List Sk) :
+    chkL lb fb cur (a ++ b) = match chkL lb fb cur a with
+      | some (some d) => chkL lb fb d b
+      | some none => some none
+      | none => none := by
+  induction a generalizing cur with
+  | nil => simp [chkL]
+  | cons s r ih =>
+    simp only [List.cons_append, chkL]
+    cases hs : chkS lb fb cur s with
+    | none => rfl
+    | some o =>
+      cases o with
+      | none => rfl
+      | some d => simp only [ih]
+
+def cv1 : D4 := ⟨1, 0, 0, 0⟩
+def all1 : D4 := ⟨1, 1, 1, 1⟩
+def fn1 : D4 := ⟨1, 1, 1, 0⟩
+
+/-- a body is *accepted in a loop* when, checked one context value deeper than the loop, it falls through
+    at that depth or not at all (its breaks / continues then sit exactly at the loop's own depth) -/
+def LoopBodyOK (fb : Option D4) (cur : D4) (body : List PyStmt) : Prop :=
+  chkL (some cur) fb (cur.add cv1) (skelL body) = some (some (cur.add cv1)) ∨
+  chkL (some cur) fb (cur.add cv1) (skelL body) = some none
+
+/-- a body is *accepted in a function* at entry delta `d` (after the prologue) -/
+def FnBodyOK (d : D4) (body : List PyStmt) : Prop :=
+  chkL none (some D4.zero) d (skelL body) = some (some d) ∨ chkL none (some D4.zero) d (skelL body) = some none
+
+theorem add_cv1_back (cur : D4) : (cur.add cv1).add ⟨-1, 0, 0, 0⟩ = cur := by
+  cases cur; simp only [D4.add, cv1, D4.mk.injEq]; omega
+
+theorem skel_cv_append (a : PyExpr) (h : mutatesE a = false) :
+    skelS (ctxCall "context_values" "append" [a]) = .ev cv1 := by
+  simp [ctxCall, ctxE, skelS, h, listDelta, cv1]
+
+theorem skel_cv_pop : skelS (ctxCall "context_values" "pop" []) = .ev ⟨-1, 0, 0, 0⟩ := by
+  simp [ctxCall, ctxE, skelS, listDelta]
+
+/-- `for VAR in iterable(pop(..)): ctx.context_values.append(VAR); <body>; ctx.context_values.pop()` -/
+theorem for_template_balanced (lb fb : Option D4) (cur : D4) (var : PyExpr) (body : List PyStmt)
+    (hv : mutatesE var = false) (hb : LoopBodyOK fb cur body) :
+    chkL lb fb cur (skelL (forTemplate var body)) = some (some cur) := by
+  have hit : mutatesE (callN "iterable" [pop1kw, nm "range", ctxE]) = false := by decide
+  simp only [forTemplate, skelL, skelS, hit, Bool.false_eq_true, if_false, skelL_append, skel_cv_append var hv,
+    skel_cv_pop, chkL, chkS, List.cons_append, List.nil_append]
+  rcases hb with hb | hb
+  · simp only [chkL_append, hb, chkL, chkS, add_cv1_back, if_true]
+  · simp only [chkL_append, hb]
+
+/-- the `while` template: condition, pop, loop(append, body, pop, condition, pop) -/
+theorem while_template_balanced (lb fb : Option D4) (cur : D4) (cond body : List PyStmt)
+    (hc : ∀ l f d, chkL l f d (skelL cond) = some (some d)) (hb : LoopBodyOK fb cur body) :
+    chkL lb fb cur (skelL (whileTemplate cond body)) = some (some cur) := by
+  have hcp : skelS condPop = .other := by
+    simp [condPop, assign1, skelS, nm, pop1kw, stackE, kwCtx, ctxE, mutatesE, mutatesEL, mutatesKw, badTarget]
+  have hbc : mutatesE boolifyCond = false := by decide
+  have hcn : mutatesE (nm "condition") = false := by decide
+  simp only [whileTemplate, skelL_append, chkL_append, hc, skelL, skelS, hcp, hbc, Bool.false_eq_true, if_false,
+    skel_cv_append _ hcn, skel_cv_pop, chkL, chkS, List.cons_append, List.nil_append]
+  rcases hb with hb | hb
+  · simp only [chkL_append, hb, chkL, chkS, add_cv1_back, hc, if_true]
+  · simp only [chkL_append, hb]
+
+/-- the `X` template inside a for / while body: pop the context value, then `break` -/
+theorem break_in_loop_ok (fb : Option D4) (cur : D4) :
+    chkL (some cur) fb (cur.add cv1) (skelL (breakTemplate .forS)) = some none := by
+  simp [breakTemplate, skelL, skelS, ctxCall, ctxE, listDelta, chkL, chkS, add_cv1_back]
+
+theorem continue_in_loop_ok (fb : Option D4) (cur : D4) :
+    chkL (some cur) fb (cur.add cv1) (skelL (recurseTemplate .whileS)) = some none := by
+  simp [recurseTemplate, skelL, skelS, ctxCall, ctxE, listDelta, chkL, chkS, add_cv1_back]
+
+/-- the `X` template inside a lambda body (all four lists one deeper than at the `def`): undo all four, return -/
+theorem break_in_lambda_ok : ∀ lb : Option D4,
+    chkL lb (some D4.zero) all1 (skelL (breakTemplate .lam)) = some none := by
+  intro lb
+  simp [breakTemplate, skelL, skelS, ctxCall, ctxE, listDelta, chkL, chkS, assign1, nm, pop1kw, stackE, kwCtx,
+    mutatesE, mutatesEL, mutatesKw, badTarget, all1, D4.add, D4.zero]
+
+theorem lambda_prologue_chk (ar : PyExpr) (har : mutatesE ar = false) :
+    chkL none (some D4.zero) D4.zero (skelL (lambdaPrologue ar)) = some (some all1) := by
+  have hsk : skelL (lambdaPrologue ar) =
+      [.ifS [.other] [.ifS [.other] [.other]], .other, .ev ⟨0, 0, 0, 1⟩, .ev ⟨1, 0, 0, 0⟩, .ev ⟨0, 1, 0, 0⟩, .ev ⟨0, 0, 1, 0⟩] := by
+    simp [lambdaPrologue, skelL, skelS, ctxCall, assign1, callN, nm, ctxE, stackE, kwCtx, mutatesE, mutatesEL, mutatesKw,
+      mutatesC, mutatesO, isCtxList, isBookList, badTarget, listDelta, har]
+  rw [hsk]; decide
+
+theorem lambda_epilogue_chk : chkL none (some D4.zero) all1 (skelL lambdaEpilogue) = some none := by decide
+
+/-- the lambda template is neutral where it stands, provided its body is accepted one level deeper on all four lists -/
+theorem lambda_template_balanced (lb fb : Option D4) (cur : D4) (id : Str) (ar : PyExpr) (body : List PyStmt)
+    (har : mutatesE ar = false) (hb : FnBodyOK all1 body) :
+    chkL lb fb cur (skelL (lambdaTemplate id ar body)) = some (some cur) := by
+  have hdef : chkL none (some D4.zero) D4.zero (skelL (lambdaPrologue ar ++ body ++ lambdaEpilogue)) = some none := by
+    rw [skelL_append, skelL_append, List.append_assoc, chkL_append, lambda_prologue_chk ar har]
+    rcases hb with hb | hb
+    · simp only [chkL_append, hb, lambda_epilogue_chk]
+    · simp only [chkL_append, hb]
+  have h2 : skelS (assign1 (.attr (.pname "_lambda_" id) "arity") ar) = .other := by
+    simp [assign1, skelS, har, mutatesE, mutatesEL, badTarget]
+  have h3 : skelS (push (.pname "_lambda_" id)) = .other := by
+    simp [push, skelS, stackE, mutatesE, mutatesEL, mutatesKw, isCtxList]
+  simp only [lambdaTemplate, skelL, skelS, h2, h3, chkL, chkS, hdef]
+
 end C12
